@@ -88,7 +88,23 @@ def snap(t):
     return {'lots': t.lots, 'qqs': t.qqs, 'lot_acres': t.lot_acres, 'aliquots_whole': t.aliquots_whole}
 
 
-def check(rep, elems, sep, cfg):
+OTHER_SETTINGS = [{'suppress_lot_divs': True}, {'qq_depth': 1}, {'qq_depth_max': 2}, {'qq_depth_min': 1}, {'break_halves': True},
+                  {'suppress_lot_divs': False}, {}]
+
+
+def dup_consistent(t):
+    dl = len(set(t.lots)) != len(t.lots)
+    dq = len(set(t.qqs)) != len(t.qqs)
+    fl = any(f.startswith('dup_lot<') for f in t.w_flags)
+    fq = any(f.startswith('dup_qq<') for f in t.w_flags)
+    if dl != fl:
+        return f'dup_lot warning present={fl} but a lot occurs twice={dl}'
+    if dq != fq:
+        return f'dup_qq warning present={fq} but an aliquot occurs twice={dq}'
+    return None
+
+
+def check(rep, elems, sep, cfg, rng=None):
     text = sep.join(elems)
     whole = pytrs.Tract(text, parse_qq=True, config=cfg)
     parts = [pytrs.Tract(e, parse_qq=True, config=cfg) for e in elems]
@@ -116,14 +132,20 @@ def check(rep, elems, sep, cfg):
     elif whole.ilots != [int(x.split('L')[-1]) for x in whole.lots]:
         why = 'ilots does not mirror lots'
     else:
-        dl = len(set(whole.lots)) != len(whole.lots)
-        dq = len(set(whole.qqs)) != len(whole.qqs)
-        fl = any(f.startswith('dup_lot<') for f in whole.w_flags)
-        fq = any(f.startswith('dup_qq<') for f in whole.w_flags)
-        if dl != fl:
-            why = f'dup_lot warning present={fl} but a lot occurs twice={dl}'
-        elif dq != fq:
-            why = f'dup_qq warning present={fq} but an aliquot occurs twice={dq}'
+        why = dup_consistent(whole)
+    if not why and rng is not None:
+        # the duplicate warnings must keep describing the tract's own lots / aliquots through further parses:
+        # an exploratory parse (commit=False) with other settings changes nothing; a committed one replaces both
+        kw = rng.choice(OTHER_SETTINGS)
+        commit = rng.chance(1, 2)
+        before = (list(whole.lots), list(whole.qqs), list(whole.w_flags))
+        whole.parse(commit=commit, **kw)
+        if not commit and (whole.lots, whole.qqs, whole.w_flags) != before:
+            why = f'parse(commit=False, {kw}) changed the tract'
+        else:
+            why = dup_consistent(whole)
+            if why:
+                why = f'after parse(commit={commit}, {kw}): ' + why
     if why:
         rep.violation('failing-input', {'elements': elems, 'separator': sep, 'config': cfg, 'text': text, 'why': why,
                                         'observed': snap(whole), 'expected_lots': exp_lots, 'expected_qqs': exp_qqs})
@@ -138,7 +160,7 @@ def run(ctx):
         elems = rand_elems(r)
         sep = r.choice(SEPS)
         cfg = cfg_for(r)
-        safely(rep, 'compose', check, elems, sep, cfg)
+        safely(rep, 'compose', check, elems, sep, cfg, r)
         text = sep.join(elems)
         if len(elems) >= 2:
             rep.nontrivial(text + '|' + cfg)
